@@ -29,12 +29,16 @@ fn lit_text(d: &Value) -> String {
     }
 }
 
+/// exact integers beyond the 32-bit integers of TLC (spec/Strings.tla B(i))
+const BIG: [&str; 5] = ["4294967393", "-4294967199", "1099511627873", "9223372036854775905", "4295095350"];
+
 fn arg_text(a: &Value, lits: &[Value]) -> String {
     let n = a["n"].as_i64().unwrap_or(0);
     match a["k"].as_str().unwrap_or("") {
         "p" => format!("o{}", n),
         "int" => format!("{}", n),
         "chr" => format!("(integer->char {})", n),
+        "big" => BIG.get((n - 1) as usize).map(|s| s.to_string()).unwrap_or("'bad-big".into()),
         "lit" => lits.get((n - 1) as usize).map(lit_text).unwrap_or("'bad-literal".into()),
         _ => "'bad-argument".into(),
     }
